@@ -58,7 +58,14 @@ fn run<T: Flt>(src: &mut Src, obs: &mut Obs) -> Result<(), Fail> {
     let n = if src.chance(1, 100) { src.usize_in(65, 10_000) } else { src.usize_in(2, 64) };
     let class = axis_class(src);
     let x = axis::<T>(src, n, class, None);
-    let trailing = if n > 64 { trailing_shape(src, 1, &[1, 2]) } else { trailing_shape(src, 3, &[1, 2, 3, 4]) };
+    let trailing = if n > 64 {
+        trailing_shape(src, 1, &[1, 2])
+    } else if src.chance(1, 40) {
+        // many lanes (size thresholds in per-lane loops)
+        src.pick(&[vec![40usize], vec![5, 8], vec![17], vec![3, 3, 7]])
+    } else {
+        trailing_shape(src, 3, &[1, 2, 3, 4])
+    };
     let lanes = product(&trailing);
     let vclass = val_class(src);
     let sc = scale_exp::<T>(src);
@@ -78,7 +85,7 @@ fn run<T: Flt>(src: &mut Src, obs: &mut Obs) -> Result<(), Fail> {
         None => unreachable!(),
     };
     obs.class(format!("axis:{}", class.name()));
-    obs.class(format!("lanes:{}", if lanes == 1 { "1" } else { ">1" }));
+    obs.class(format!("lanes:{}", if lanes == 1 { "1" } else if lanes > 16 { ">16" } else { ">1" }));
     obs.class(format!("ddim:{}", dd.name()));
     obs.class(if n > 64 { "n:>64" } else if n <= 3 { "n:2-3" } else { "n:4-64" });
 
